@@ -10,7 +10,7 @@
 From Coq Require Import List Arith Lia PeanoNat Bool PArith.
 Import ListNotations.
 Require Import Fggs.Model.Axis Fggs.Model.AxisCheck.
-Require Import Fggs.Proofs.Axis_sem Fggs.Proofs.Axis_unify Fggs.Proofs.Axis_complete_gen Fggs.Proofs.Axis_typed Fggs.Proofs.Axis_total.
+Require Import Fggs.Proofs.Axis_sem Fggs.Proofs.Axis_unify Fggs.Proofs.Axis_complete_gen Fggs.Proofs.Axis_typed Fggs.Proofs.Axis_total Fggs.Proofs.Axis_fuel.
 
 Theorem unify_typed_mgu G es fs pss next fuel :
   ctx_good G -> ctx_below G next -> tys G es pss -> tys G fs pss -> Forall gprimes pss ->
@@ -50,6 +50,42 @@ Corollary unify_typed_mgu_model_fuel G es fs pss next :
              exists rho', extends_to next rho rho' /\ inr_s rho' (us_subst st') /\ models rho' (us_subst st'))
        else map (eval rho) es <> map (eval rho) fs).
 Proof. apply unify_typed_mgu. Qed.
+
+(** fuel that suffices for a whole pattern *)
+Definition tyfuels (pss : list (list ity)) : nat := fold_right Nat.max 0 (map tyfuel pss).
+
+Lemma tyfuels_ok pss : Forall (fun ps => tyfuel ps <= tyfuels pss) pss.
+Proof.
+  induction pss as [|ps pss IH]; constructor; unfold tyfuels in *; simpl; [lia|].
+  eapply Forall_impl; [|exact IH]. simpl. intros q Hq. lia.
+Qed.
+
+(** Whatever the fuel: if the model answers at all (it does not run out of fuel), the answer is the
+    one above.  (The Python code has no fuel; this is the statement about the code.) *)
+Theorem unify_typed_mgu_any_fuel G es fs pss next fuel b st' :
+  ctx_good G -> ctx_below G next -> tys G es pss -> tys G fs pss -> Forall gprimes pss ->
+  unify_list fuel es fs (ustate0 next) = Ok (b, st') ->
+  us_warn st' = false /\
+  (exists G', (next <= us_next st')%positive /\ ctx_ext next G G' /\ tstate G' st') /\
+  (forall rho, Forall (inrange rho) es -> Forall (inrange rho) fs ->
+     if b
+     then (models rho (us_subst st') -> map (eval rho) es = map (eval rho) fs) /\
+          (map (eval rho) es = map (eval rho) fs ->
+           exists rho', extends_to next rho rho' /\ inr_s rho' (us_subst st') /\ models rho' (us_subst st'))
+     else map (eval rho) es <> map (eval rho) fs).
+Proof.
+  intros CG CB Te Tf Gp E.
+  set (F := Nat.max fuel (tyfuels pss)).
+  assert (Hf : Forall (fun ps => tyfuel ps <= F) pss).
+  { eapply Forall_impl; [|apply tyfuels_ok]. simpl. intros q Hq. unfold F. lia. }
+  assert (E' : unify_list F es fs (ustate0 next) = Ok (b, st')).
+  { eapply Fggs.Proofs.Axis_fuel.unify_list_mono; [|exact E]. unfold F. lia. }
+  destruct (unify_total_typed_list G es fs pss next F CG CB Te Tf Gp Hf) as (b0 & st0 & G' & E0 & W & L & X & T').
+  rewrite E' in E0. inversion E0; subst b0 st0.
+  split; [exact W|]. split; [exists G'; auto|].
+  destruct (unify_typed_mgu G es fs pss next F CG CB Te Tf Gp Hf) as (b1 & st1 & E1 & _ & H).
+  rewrite E' in E1. inversion E1; subst b1 st1. exact H.
+Qed.
 
 (** two environments, for patterns over disjoint variables: every coincidence
     [eval rho1 es = eval rho2 fs] is an instance of the unifier, and a failure means disjoint images *)
